@@ -690,8 +690,122 @@ func fmtBatch(cases []Case) []string {
 	return res
 }
 
+// zooFmtCase: one run over packages of two modules — the main one and `zoo` (dot-less module path, its own go
+// directive, reached through a replace directive).  Every written file must be a fixed point of gofumpt *for the module
+// its package belongs to*: the language version decides how a legacy octal literal is spelled, the module path which
+// dot-less import paths are the module's own.
+type zooFmtCase struct {
+	S   PScn `json:"scenario"`
+	out *POut
+}
+
+func (c *zooFmtCase) ensure() {
+	if c.out == nil {
+		n := cloneScn(c.S)
+		n.Zoo = 1
+		c.out = runScenarios([]*PScn{&n}, 1)[0]
+	}
+}
+func (c *zooFmtCase) Line() string { return "" }
+func (c *zooFmtCase) Run() string {
+	c.ensure()
+	var files []string
+	for rel := range c.out.Texts {
+		files = append(files, rel)
+	}
+	sort.Strings(files)
+	return "result=" + strings.SplitN(c.out.Result, ":", 2)[0] + " files=" + strings.Join(files, ",")
+}
+func (c *zooFmtCase) Oracle(out string) string {
+	c.ensure()
+	if c.out.Result != "ok" {
+		return ""
+	}
+	mainGo := c.S.GoVer
+	if mainGo == "" {
+		mainGo = "1.24"
+	}
+	var mainMod string
+	withMod(&c.S, func() { mainMod = pipeMod })
+	if _, ok := c.out.Texts[zooFile]; !ok {
+		return "no file was written for zoo/p"
+	}
+	var rels []string
+	for rel := range c.out.Texts {
+		rels = append(rels, rel)
+	}
+	sort.Strings(rels)
+	for _, rel := range rels {
+		txt := c.out.Texts[rel]
+		ver, mod := mainGo, mainMod
+		if strings.HasPrefix(rel, "zoo/") {
+			ver, mod = c.S.ZooGo, "zoo"
+		}
+		if _, err := parser.ParseFile(token.NewFileSet(), "x.go", txt, parser.ParseComments); err != nil {
+			return rel + " does not parse: " + err.Error()
+		}
+		g, err := gformat.Source([]byte(txt), gformat.Options{LangVersion: "go" + ver, ModulePath: mod})
+		if err != nil {
+			return "gofumpt fails on " + rel + ": " + err.Error()
+		}
+		if string(g) != txt {
+			return fmt.Sprintf("%s is not a fixed point of gofumpt for its module (%s, go %s):\n%s", rel, mod, ver, firstDiff(txt, string(g)))
+		}
+	}
+	return ""
+}
+func (c *zooFmtCase) Shrinks() []Case {
+	var out []Case
+	for key, items := range c.S.Custom {
+		for i := range items {
+			n := cloneScn(c.S)
+			n.Custom[key] = append(append([]PItem{}, items[:i]...), items[i+1:]...)
+			out = append(out, &zooFmtCase{S: n})
+		}
+	}
+	return out
+}
+func (c *zooFmtCase) Key() string {
+	n := 0
+	for _, items := range c.S.Custom {
+		n += len(items)
+	}
+	return fmt.Sprintf("go %s / zoo go %s, %d rendered items", c.S.GoVer, c.S.ZooGo, n)
+}
+func (c *zooFmtCase) Classes() []string {
+	return []string{"main-go:" + c.S.GoVer, "zoo-go:" + c.S.ZooGo}
+}
+func (c *zooFmtCase) Nontrivial() bool { return true }
+func (c *zooFmtCase) InDomain() bool   { return true }
+
+func genZooFmt(r *Rng, i int) Case {
+	zc := genZoo(r, i).(*zooCase)
+	s := zc.S
+	// the main module's package renders an octal literal and a standard library reference as well
+	for _, p := range s.Pkgs {
+		var key string
+		withMod(&s, func() { key = "rec@" + p.path() + "@A" })
+		s.Reacts[key] = "ob-"
+		s.Custom[key] = []PItem{{K: "block", S: "var Mode = 0755\n"}, {K: "ref", S: "var _ = @ref\n", Path: "os", Name: "Exit"}}
+	}
+	hasOctal := false
+	for _, it := range s.Custom["rec@zoo/p@P"] {
+		hasOctal = hasOctal || strings.Contains(it.S, "0644")
+	}
+	if !hasOctal {
+		s.Custom["rec@zoo/p@P"] = append(s.Custom["rec@zoo/p@P"], PItem{K: "block", S: "var Octal = 0644\n"})
+	}
+	return &zooFmtCase{S: s}
+}
+
 func init() {
 	register(&Property{ID: "C01", Streams: []*Stream{
+		{
+			Name: "two-modules", Quick: 30, Thorough: 240, New: func() Case { return &zooFmtCase{} },
+			Gen:          genZooFmt,
+			ShrinkBudget: 8, MaxShrinks: 2,
+			Rule: "one run over packages of two modules (the main module, go 1.12 / 1.18 / 1.21 / 1.24, and `zoo`, a module with a dot-less path and its own go directive 1.12 / 1.22 / 1.24, reached through a replace directive), every package rendering a legacy octal literal and references to standard library and module-local packages; oracle only: every written file parses and is a fixed point of gofumpt for the language version and module path of the module its own package belongs to",
+		},
 		{
 			Name: "bodies", Quick: 1000, Thorough: 8000, New: func() Case { return &fmtCase{} },
 			Gen: func(r *Rng, i int) Case {
